@@ -3,7 +3,7 @@
    regenerated from /repo on every run (constant + source text of the helpers, tied in
    Proofs_shape.v).  Names are label lists, root first; [canon] folds ASCII case. *)
 From Sdns Require Import Common.Base Gen.C07 C07.Model C07.Proofs_names C07.Proofs_exchange
-  C07.Proofs_glue C07.Proofs_referral C07.Proofs_contain C07.Proofs_chase C07.Proofs_gluehist C07.Proofs_local C07.Proofs_fold C07.Proofs_zone C07.Proofs_sub C07.Proofs_shape.
+  C07.Proofs_glue C07.Proofs_referral C07.Proofs_contain C07.Proofs_chase C07.Proofs_gluehist C07.Proofs_local C07.Proofs_fold C07.Proofs_zone C07.Proofs_sub C07.Proofs_gen C07.Proofs_shape.
 Open Scope N_scope.
 
 (* A reply is accepted only when it parses, carries the outstanding query's ID and - when the
@@ -255,15 +255,47 @@ Theorem zone_filter_is_model_is_sub :
 Proof. exact NameInZone_is_sub. Qed.
 Print Assumptions zone_filter_is_model_is_sub.
 
-(* TRANSLATOR TIE, dnsname.Sub / CompareSuffix (behind checkGlueRR's bailiwick test and progressingReferral).
-   Full statement (open): forall plain z n and enough fuel, go_Sub fuel (pres z) (pres n) = Some (is_sub z n).
-   Proved: the equation on every ordered pair of the 22-name grid of Proofs_sub.v, computed on the translated code. *)
-Theorem dnsname_Sub_is_model_is_sub_partial :
-  forall z n, In z grid -> In n grid -> go_Sub 64 (pres z) (pres n) = Some (is_sub z n).
-Proof. exact sub_agrees_partial. Qed.
-Print Assumptions dnsname_Sub_is_model_is_sub_partial.
+(* TRANSLATOR TIES on presentation strings.  [pres n] is the presentation string of the root-first label list
+   [n] (leaf label first, a dot after every label, "." for the root); [plain n]: every label is non-empty and
+   holds neither '.' nor '\' (no escapes needed), any letter case.  The universal statements about the
+   generated CompareSuffix / Sub are C02's (C02/Proofs_Gen.v gen_compare_suffix, gen_sub), carried over to
+   C07's name representation in Proofs_sub.v. *)
 
-Theorem dnsname_CompareSuffix_is_model_partial :
-  forall a b, In a grid -> In b grid -> go_CompareSuffix 64 (pres a) (pres b) = Some (Z.of_nat (compare_suffix a b)).
-Proof. exact compare_suffix_agrees_partial. Qed.
-Print Assumptions dnsname_CompareSuffix_is_model_partial.
+(* dnsname.CompareSuffix (with miekg's CountLabel / NextLabel) computes the model's compare_suffix ... *)
+Theorem dnsname_CompareSuffix_is_model :
+  forall fuel a b, plain a -> plain b -> (length (pres a) + length (pres b) < fuel)%nat ->
+  go_CompareSuffix fuel (pres a) (pres b) = Some (Z.of_nat (compare_suffix a b)).
+Proof. exact gen_compare_suffix. Qed.
+Print Assumptions dnsname_CompareSuffix_is_model.
+
+(* ... and dnsname.Sub the model's is_sub (the test under checkGlueRR's bailiwick rule and progressingReferral) *)
+Theorem dnsname_Sub_is_model_is_sub :
+  forall fuel z n, plain z -> plain n -> (length (pres z) + length (pres n) < fuel)%nat ->
+  go_Sub fuel (pres z) (pres n) = Some (is_sub z n).
+Proof. exact gen_sub. Qed.
+Print Assumptions dnsname_Sub_is_model_is_sub.
+
+(* dnsclient.QuestionMatches (dns.CanonicalName as its ASCII model: exact for octets < 128) is the model's
+   question guard *)
+Theorem QuestionMatches_is_model :
+  forall req resp, plain (q_name req) -> Forall (fun r => plain (q_name r)) resp ->
+  go_QuestionMatches (t_question req) (map t_question resp) = question_matches req resp.
+Proof. exact gen_QuestionMatches. Qed.
+Print Assumptions QuestionMatches_is_model.
+
+(* resolver.progressingReferral is the model's progress rule *)
+Theorem progressingReferral_is_model :
+  forall fuel referral auth qname, plain referral -> plain auth -> plain qname ->
+  (length (pres referral) + length (pres auth) + length (pres qname) < fuel)%nat ->
+  go_progressingReferral fuel (pres referral) (pres auth) (pres qname) = Some (progressing_referral referral auth qname).
+Proof. exact gen_progressingReferral. Qed.
+Print Assumptions progressingReferral_is_model.
+
+(* resolver.validReferral, for a referral that has an NS record (info.nsRecord != nil; without one both the
+   code and the model say false), is the model's validity rule *)
+Theorem validReferral_is_model :
+  forall fuel i owner auth q, di_owner i = Some owner -> plain owner -> plain auth -> plain (q_name q) ->
+  (length (pres owner) + length (pres auth) + length (pres (q_name q)) < fuel)%nat ->
+  go_validReferral fuel (t_info owner i) (pres auth) (t_question q) = Some (valid_referral i auth q).
+Proof. exact gen_validReferral. Qed.
+Print Assumptions validReferral_is_model.
